@@ -144,6 +144,25 @@ Definition ops : list op := [
          VL [vok (vfilter r); unchanged]
        | _, _, _ => vbad end
      | _ => vbad end);
+  (* decidable hypotheses of C06_L4 / C14_filter_spec, evaluated on the LOGICAL case (sound by Proofs/PmtHyp.v) *)
+  ("spec.hyp.read", fun a => match a with
+     | [VI p; VL pr; s; VI st; VI pid; VL its] =>
+       match opts other_of pr, sec_of s, opts item_of its with
+       | Some o, Some sc, Some l => vbool (hyp_readb {| pf := zN p; pre := o; sec := sc; stuffing := zN st |} (zN pid) l)
+       | _, _, _ => vbad end
+     | _ => vbad end);
+  ("spec.hyp.filter", fun a => match a with
+     | [VI p; s; VI st; VI pid; VL its] =>
+       match sec_of s, opts item_of its with
+       | Some sc, Some l => vbool (hyp_filterb {| pf := zN p; pre := []; sec := sc; stuffing := zN st |} (zN pid) l)
+       | _, _ => vbad end
+     | _ => vbad end);
+  ("spec.hyp.carrier", fun a => match a with
+     | [VI p; VL pr; s] =>
+       match opts other_of pr, sec_of s with
+       | Some o, Some sc => vbool (wf_carrierb {| pf := zN p; pre := o; sec := sc; stuffing := 0 |})
+       | _, _ => vbad end
+     | _ => vbad end);
   ("ser.pkts", fun a => match a with
      | [VI pid; VL its] => match opts item_of its with Some l => VL (map VB (ser_items (zN pid) true l)) | None => vbad end
      | _ => vbad end)
